@@ -139,10 +139,12 @@ impl<'a> Parser<'a> {
                         })
                     }
                 } else {
-                    if !self.vars.contains(name) {
+                    if self.vars.contains(name) {
+                        Ok(Expr::LocalVariable(name.to_string()))
+                    } else {
                         self.expected_outputs.entry(name).or_insert(ident_tok.span);
+                        Ok(Expr::Variable(name.to_string()))
                     }
-                    Ok(Expr::Variable(name.to_string()))
                 }
             }
             kind @ (TokenKind::Minus | TokenKind::LogicalNot | TokenKind::BinaryNot) => {
